@@ -1202,7 +1202,13 @@ def _python_side(ctx: Ctx, m: pf.Module, classes: Dict[str, ast.ClassDef]) -> Di
             recs = [it for it in W.flatten_prims(present) if it[0] == 'rec']
             for r in recs:
                 arg = r[2]['arg']
-                ctx.check(arg is not None and pf.nsrc(arg) == pf.nsrc(subj), 'R2', f'{F}::{cname}.{TO}::presence test subject',
+                if arg is not None and pf.nsrc(pf.expand_locals(cw.fn, arg)) != pf.nsrc(pf.expand_locals(cw.fn, subj)):
+                    # a difference is established when both are recognised components of the value (value[<index>] / a loop variable); otherwise the
+                    # two spellings may denote the same component
+                    shape = lambda e_: isinstance(e_, ast.Name) or (isinstance(e_, ast.Subscript) and isinstance(e_.value, ast.Name) and e_.value.id == cw.value)
+                    ctx.need(shape(pf.expand_locals(cw.fn, arg)) and shape(pf.expand_locals(cw.fn, subj)),
+                             f'{F}::{cname}.{TO} (line {test.lineno}): `{pf.nsrc(test)}` guards the encoding of `{pf.nsrc(arg)}`: cannot tell whether both denote the same component')
+                ctx.check(arg is not None and pf.nsrc(pf.expand_locals(cw.fn, arg)) == pf.nsrc(pf.expand_locals(cw.fn, subj)), 'R2', f'{F}::{cname}.{TO}::presence test subject',
                           f'`{pf.nsrc(test)}` guards the encoding of `{pf.nsrc(arg) if arg is not None else "?"}`: the component tested for missingness is not the one written',
                           m.path, test.lineno)
     return canon
